@@ -18,10 +18,10 @@ class Triple:
         return {"rain": self.rain, "et": self.et, "level": self.level, "note": self.note}
 
 
-def gen_triple(rng, malformed=None):
+def gen_triple(rng, malformed=None, long=False):
     dt = rng.choice([600, 1200, 1800, 3600])
     t0 = (rng.randint(631152000, 1893456000) // dt) * dt
-    nr = rng.randint(3, 40)
+    nr = rng.randint(3, 40) if not long else rng.randint(1200, 2500)
     rain_ep = [t0 + i * dt for i in range(nr)]
     kind = rng.choice(["same", "same", "half", "double", "odd", "unaligned"])
     if kind == "same":
